@@ -115,7 +115,7 @@ def norm_name(n):
 
 
 class Inst:
-    __slots__ = ("id", "name", "kind", "intrinsic", "body", "stopped", "aux", "abi", "args", "ty",
+    __slots__ = ("id", "name", "kind", "intrinsic", "body", "stopped", "aux", "abi", "args", "ty", "is_clone",
                  "model", "has_body", "sig", "nlocals", "spread_arg", "arg_count", "blocks", "local_tys")
 
     def __init__(self, iid, rec):
@@ -132,6 +132,8 @@ class Inst:
         self.sig = rec.get("sig")
         self.has_body = rec.get("has_body", False)
         self.model = None
+        self.is_clone = (self.name.startswith("<") and self.name.endswith(" as std::clone::Clone>::clone")) or \
+            ("<impl std::clone::Clone for " in self.name and self.name.endswith(">::clone"))
         if self.body:
             self.blocks = self.body["blocks"]
             self.local_tys = [l["ty"] for l in self.body["locals"]]
